@@ -102,3 +102,50 @@ Proof.
   - destruct (sessions p) eqn:Es; [|discriminate]. rewrite Hop. auto.
 Qed.
 
+
+(* ---------- self-healing under the canonical schedule ---------- *)
+Definition good : attempt := {| a_conn_ok := true; a_sess_ok := true; a_ping_ok := true; a_cancel := false |}.
+Definition offer_good (p : pool) : pool := pevent_step p (EOffer good).
+
+(* a provider waiting for the peer with a permit in hand turns one good attempt into one more session, and is then either
+   waiting again (one permit fewer to go) or idle with no permit left, i.e. at full strength *)
+Lemma heal_one p :
+  cancelled p = false -> ph p = Waiting -> queue p = [] ->
+  let p' := offer_good p in
+  sessions p' = S (sessions p) /\ cancelled p' = false /\ size p' = size p /\ opened p' = S (opened p) /\
+  match free p with
+  | O => ph p' = Idle /\ free p' = 0
+  | S f => ph p' = Waiting /\ queue p' = [] /\ free p' = f
+  end.
+Proof.
+  intros Hc Hph Hq. unfold offer_good, pevent_step. cbn [pstep].
+  set (p1 := mk p (free p) (ph p) (sessions p) (opened p) (queue p ++ [good])).
+  assert (Hw : work p1 = 8 + 4 * (length (queue p1) + sessions p1 + size p1)) by (unfold work; apply Nat.add_comm).
+  rewrite Hw. cbn [plus]. unfold p1. rewrite Hph, Hq. cbn [app].
+  cbn [pump next_action ph mk queue]. cbn [pstep ph mk queue a_cancel a_conn_ok good].
+  cbn [cancelled mk]. cbn [pump next_action ph mk]. cbn [pstep ph mk queue a_sess_ok good].
+  cbn [pump next_action ph mk]. cbn [pstep ph mk queue a_ping_ok good cancelled]. rewrite Hc.
+  cbn [pump next_action ph mk cancelled]. rewrite Hc. cbn [free mk].
+  destruct (free p) as [|f] eqn:Ef.
+  - cbn. rewrite Hc. repeat split; reflexivity.
+  - cbn [pump pstep ph mk free cancelled]. rewrite Hc. cbn [pump next_action ph mk queue cancelled]. rewrite Hc.
+    cbn. rewrite Hc. repeat split; reflexivity.
+Qed.
+
+(* with as many good attempts as there are missing sessions, the pool is back at full strength *)
+Theorem heals k : forall p,
+  cancelled p = false -> ph p = Waiting -> queue p = [] -> free p = k -> free p + 1 + sessions p = size p ->
+  let p' := Nat.iter (S k) offer_good p in
+  sessions p' = size p /\ ph p' = Idle /\ free p' = 0 /\ cancelled p' = false.
+Proof.
+  induction k as [|k IH]; intros p Hc Hph Hq Hf Hex.
+  - cbv zeta. change (Nat.iter 1 offer_good p) with (offer_good p). destruct (heal_one p Hc Hph Hq) as (H1 & H2 & H3 & _ & H5). rewrite Hf in H5. destruct H5 as [H5 H6].
+    repeat split; try assumption. rewrite H1. lia.
+  - (* one attempt first, then the induction hypothesis on the state it leaves *)
+    assert (Hiter : Nat.iter (S (S k)) offer_good p = Nat.iter (S k) offer_good (offer_good p)).
+    { clear. generalize (S k) as n. induction n as [|n IHn]; [reflexivity|]. change (Nat.iter (S (S n)) offer_good p) with (offer_good (Nat.iter (S n) offer_good p)). rewrite IHn. reflexivity. }
+    cbv zeta. rewrite Hiter.
+    destruct (heal_one p Hc Hph Hq) as (H1 & H2 & H3 & _ & H5). rewrite Hf in H5. destruct H5 as (H5 & H6 & H7).
+    destruct (IH (offer_good p) H2 H5 H6 H7 ltac:(lia)) as (G1 & G2 & G3 & G4).
+    repeat split; try assumption. rewrite G1. exact H3.
+Qed.
